@@ -92,11 +92,17 @@ class Checker:
         counts = {}
         for o in self.obs:
             counts[o.rule] = counts.get(o.rule, 0) + 1
-        for rid, m in self.minimum.items():
-            if counts.get(rid, 0) < m:
-                raise AnalysisError(
-                    f'rule {rid} found {counts.get(rid, 0)} instance(s), fewer than the {m} confirmed by hand: the check is blind'
-                )
+        blind = [
+            f'rule {rid} found {counts.get(rid, 0)} instance(s), fewer than the {m} confirmed by hand: the check is blind'
+            for rid, m in self.minimum.items()
+            if counts.get(rid, 0) < m
+        ]
+        if blind and all(o.ok for o in self.obs):
+            # nothing was found wrong, but part of the code was not seen: no verdict
+            raise AnalysisError('; '.join(blind))
+        # with violations in hand they are reported (a violated site often makes dependent
+        # obligations disappear); the shortfall is recorded in the notes
+        self.notes.extend(blind)
         return counts
 
 
